@@ -629,6 +629,9 @@ fn control_pass(p: &C20, acc: &mut Acc, opts: &[SerOpts]) {
     texts.push(format!(" {}", "word ".repeat(30)));
     texts.push(format!("{}\n", "word ".repeat(30)));
     texts.push(format!("{}\tword", "word ".repeat(30)));
+    // a blank followed by a tab right where the line would be wrapped
+    texts.push(format!("{} \tbbbb cccc", "a".repeat(78)));
+    texts.push(format!("{} \t\tbbbb cccc", "a".repeat(79)));
     let mut decorated: Vec<DV> = Vec::new();
     for t in &texts {
         for w in [Wrap::Lit, Wrap::Fold] {
